@@ -148,6 +148,11 @@ pub enum Op {
     TrackForget { k: u8 },
     Alloc { k: u8 },
     Dealloc { k: u8 },
+    /// like TrackDrop / Dealloc / ArcDrop, but the object is released by the unwinding of a panic
+    /// that is caught (`catch_unwind`) inside the model
+    TrackDropUnwind { k: u8 },
+    DeallocUnwind { k: u8 },
+    ArcDropUnwind { x: u8 },
 
     // ---- thread locals / lazy statics ----
     /// `KEY.with(|v| ..)`: result = value id observed (thread id that initialised it * 16 + writes)
@@ -286,9 +291,13 @@ impl Program {
     }
     pub fn n_tracks(&self) -> usize {
         self.max_index(|op| match op {
-            Op::TrackNew { k } | Op::TrackDrop { k } | Op::TrackForget { k } | Op::Alloc { k } | Op::Dealloc { k } => {
-                Some(*k)
-            }
+            Op::TrackNew { k }
+            | Op::TrackDrop { k }
+            | Op::TrackForget { k }
+            | Op::Alloc { k }
+            | Op::Dealloc { k }
+            | Op::TrackDropUnwind { k }
+            | Op::DeallocUnwind { k } => Some(*k),
             _ => None,
         })
     }
@@ -398,6 +407,9 @@ impl fmt::Display for Op {
             TrackForget { k } => write!(f, "track{}.forget", k),
             Alloc { k } => write!(f, "alloc{}", k),
             Dealloc { k } => write!(f, "dealloc{}", k),
+            TrackDropUnwind { k } => write!(f, "track{}.drop_unwinding", k),
+            DeallocUnwind { k } => write!(f, "dealloc_unwinding{}", k),
+            ArcDropUnwind { x } => write!(f, "arc{}.drop_unwinding", x),
             TlsWith { k } => write!(f, "tls{}.with", k),
             TlsNested { k } => write!(f, "tls{}.nested", k),
             TlsBump { k } => write!(f, "tls{}.bump", k),
